@@ -151,7 +151,7 @@ def graph_in_domain(rnd, directed, tries=20, **kw):
 
 
 def connected_graph(rnd, directed, tries=40, **kw):
-    kw.setdefault('families', BRIDGE_RICH + ('er_mid', 'er_dense'))
+    kw.setdefault('families', BRIDGE_RICH + ('er_mid', 'er_dense', 'near_complete'))
     for _ in range(tries):
         W, meta = graph(rnd, directed=directed, **kw)
         ok = G.strongly_connected(W) if directed else G.connected_und(W)
